@@ -57,9 +57,9 @@ def rust_ops(ops):
     s = ""
     for o in ops:
         k = o[0]
-        if k == "ret": s += f".returns(Val(\"r{o[1]}\".into()))"
+        if k == "ret": s += f".returns(Val::new(\"r{o[1]}\"))"
         elif k == "retd": s += ".returns_default()"
-        elif k == "ans": s += f".answers(&|_, a| Val(format!(\"a{o[1]}({{a}})\")))"
+        elif k == "ans": s += f".answers(&|_, a| Val::new(format!(\"a{o[1]}({{a}})\")))"
         elif k == "pan": s += f".panics(\"boom{o[1]}\")"
         elif k == "unm": s += ".applies_unmocked()"
         elif k == "dfl": s += ".applies_default_impl()"
